@@ -1,0 +1,45 @@
+//go:build verif
+
+// Verification hook (build tag verif): lets a test harness stand in for the kernel's mount
+// table when the real BINARIES are run.  With LAYERCAKE_VERIF_KERNEL unset it does nothing.
+//   LAYERCAKE_VERIF_KERNEL=<program>   mount(2), umount(2) and the reading of
+//                                      /proc/self/mountinfo are delegated to <program>:
+//     <program> mount <source> <target> <fstype> <flags> <data>   exit status = errno, 0 = done
+//     <program> umount <target> <flags>                           exit status = errno, 0 = done
+//     <program> mountinfo                                         prints the table
+
+package fs
+
+import (
+	"bytes"
+	"os"
+	"os/exec"
+	"strconv"
+	"syscall"
+)
+
+func init() {
+	helper := os.Getenv("LAYERCAKE_VERIF_KERNEL")
+	if helper == "" {
+		return
+	}
+	call := func(args ...string) ([]byte, error) {
+		out, err := exec.Command(helper, args...).Output()
+		if ee, ok := err.(*exec.ExitError); ok && ee.ExitCode() > 0 {
+			return out, syscall.Errno(ee.ExitCode())
+		}
+		return out, err
+	}
+	SyscallMount = func(source, target, fstype string, flags uintptr, data string) error {
+		_, err := call("mount", source, target, fstype, strconv.FormatUint(uint64(flags), 10), data)
+		return err
+	}
+	SyscallUnmount = func(target string, flags int) error {
+		_, err := call("umount", target, strconv.Itoa(flags))
+		return err
+	}
+	GetAlternateProbeMountsCursor = func() LineReader {
+		out, _ := call("mountinfo")
+		return NewTextInputCursor("mountinfo", bytes.NewReader(out))
+	}
+}
